@@ -162,7 +162,7 @@ def main():
         "setup_cmd": "cd /verif && /venv/bin/python run.py --setup",
         "hooks": {
             "guard": "ERDOS_VERIF_TRACE",
-            "enable": "no source hooks: the harness installs add-only wrappers from outside the repository when ERDOS_VERIF_TRACE=1 (harness/tracer.py)",
+            "enable": "no source hooks: the harness installs add-only wrappers from outside the repository when ERDOS_VERIF_TRACE=1 (harness/simrun.py and the per-property recorders)",
             "baseline_off_cmd": "cd /repo && /venv/bin/python -m pytest -ra -q -p no:cacheprovider --timeout=900 --continue-on-collection-errors",
             "source_commits": [],
             "add_only": True,
